@@ -97,9 +97,9 @@ def run(tier, seed):
         return all(abs(g - e) < 1e-12 for g, e in zip(got, exp)) and all(abs(g - m_) < 1e-9 for g, m_ in zip(got, model)), "karplus_strong %r vs model %r" % (got[:6], model[:6])
     R.guard("karplus_strong-is-the-feedback-comb-run-on-its-memory", {}, ks)
     # resample: order-p Lagrange interpolation of p+1 neighbouring samples (zero extended on the left); ends with its input
-    for order in (1, 2, 3):
+    for order in (1, 2, 3, 4, 5, 6, 8):
         for old, new in ((1, 1), (1, 2), (2, 1), (3, 2), (2, 3)):
-            for L in (0, 1, 4, 9):
+            for L in (0, 1, 4, 9, 12):
                 def rs():
                     x = [F(v * v - 3 * v + 1) for v in range(L)]
                     try:
@@ -112,9 +112,12 @@ def run(tier, seed):
                         if pos.denominator == 1 and int(pos) < L:
                             if not near(g, x[int(pos)]):
                                 return False, "integer position %s: %r != input %s" % (pos, g, x[int(pos)])
+                    # the first output is the input's first sample (position 0), whatever the order
+                    if L >= order + 1 and got and not near(got[0], x[0]):
+                        return False, "first output %r is not the first input sample %s (order %d)" % (got[0], x[0], order)
                     need = int(math.floor((order + 1) / 2.0 + 0.5))     # samples needed before the first output
                     if L >= need and not got:
                         return False, "no output although the input has the %d samples the first output needs" % need
                     return True, ""
                 R.guard("resample-integer-positions-reproduce-the-input-and-it-ends-with-its-input", {"order": order, "old": old, "new": new, "L": L}, rs)
-    return R.result("12 (start, modulo, step) rational triples x 8 numbers-vs-streams combinations x 14 outputs; 7 table indices, 4 oscillator settings; resample orders 1..3, 5 ratios, lengths {0,1,4,9}")
+    return R.result("12 (start, modulo, step) rational triples x 8 numbers-vs-streams combinations x 14 outputs; 7 table indices, 4 oscillator settings; resample orders 1..6 and 8, 5 ratios, lengths {0,1,4,9,12}")
